@@ -30,7 +30,7 @@ def run(pid, tier, replay=None):
         # both node layouts: tag packed into the parent pointer, and separate parent / tag fields (small-pointer targets)
         exe_s = vlib.cc_build(sc.path("tree_split_" + kind), [os.path.join(vlib.HARNESS, "tree_h.c")] + vlib.repo_src(src), sc, defs=tuple(defs) + ("SPLIT_LAYOUT", "A_SIZE_POINTER=1"))
         for lay, ex in (("packed", exe), ("split", exe_s)):
-            r = vlib.run_harness([ex, "iter", out, sc.path("it-%s-%s" % (kind, lay)), "7", str(N)], timeout=900)
+            r = vlib.run_harness([ex, "iter", out, sc.path("it-%s-%s" % (kind, lay)), "7", str(N)], timeout=300 if tier == "quick" else 1500)
             summ = parse_summary(r)
             report_mismatches(ck, r, "%s-%s:" % (kind, lay))
             if r.returncode != 0 or summ is None:
